@@ -81,12 +81,15 @@ class FrameCollector:
         self.__has_time_exceeded = False
         self.__source = source
         self.__frame = frame
+        # the time this tracepoint may spend runs from the start of its own collection: the timestamp of the trigger
+        # is shared by all tracepoints of the event, the time one of them takes must not empty the others
+        self.__started = time_ns()
 
     def __time_exceeded(self) -> bool:
         if self.__has_time_exceeded:
             return self.__has_time_exceeded
 
-        duration = (time_ns() - self.__source.ts) / 1000000  # make duration ms not ns
+        duration = (time_ns() - self.__started) / 1000000  # make duration ms not ns
         self.__has_time_exceeded = duration > self.__source.max_tp_process_time
         return self.__has_time_exceeded
 
